@@ -281,6 +281,84 @@ func checkErrorsNotSwallowed(p *core.Program, r *core.Report, fn *ssa.Function, 
 		}
 	}
 	r.Check(len(bad) == 0, key, rule, p.Pos(fn.Pos()), "", "nil is returned although the call at "+strings.Join(bad, ", ")+" failed on that path: the caller takes a partial result for a success")
+
+	// The enumeration follows a loop once; a failure that sends control back to the loop head ("continue") is cut
+	// there. Structural complement: inside a loop, the failure edge of a call's error test reaches the loop head again
+	// only if the error value is used on the way (recorded, wrapped, appended) - a bare continue forgets it.
+	loops := core.Loops(fn)
+	var forgot []string
+	for _, blk := range fn.Blocks {
+		ifi, isIf := blk.Instrs[len(blk.Instrs)-1].(*ssa.If)
+		if !isIf {
+			continue
+		}
+		l := core.InnermostLoop(loops, blk)
+		if l == nil {
+			continue
+		}
+		x, isNil, ok := core.NilCmp(core.Cond{V: ifi.Cond, True: true})
+		if !ok || !isErrorType(x.Type()) {
+			continue
+		}
+		var call *ssa.Call
+		switch v := x.(type) {
+		case *ssa.Call:
+			call = v
+		case *ssa.Extract:
+			call, _ = v.Tuple.(*ssa.Call)
+		}
+		if call == nil {
+			continue
+		}
+		name := core.CalleeName(call)
+		if name == "" && call.Common().IsInvoke() {
+			name = "invoke." + call.Common().Method.Name()
+		}
+		if tolerated[shortName(name)] {
+			continue
+		}
+		fail := blk.Succs[0]
+		if isNil {
+			fail = blk.Succs[1]
+		}
+		// blocks reachable from the failure edge without leaving the loop and without passing the header
+		seen := map[*ssa.BasicBlock]bool{}
+		work := []*ssa.BasicBlock{fail}
+		back, used := false, false
+		for len(work) > 0 {
+			b := work[len(work)-1]
+			work = work[:len(work)-1]
+			if seen[b] || !l.Blocks[b] {
+				continue
+			}
+			if b == l.Header {
+				back = true
+				continue
+			}
+			seen[b] = true
+			for _, in := range b.Instrs {
+				if in == ssa.Instruction(ifi) {
+					continue
+				}
+				for _, op := range in.Operands(nil) {
+					if *op == x {
+						if _, isIf2 := in.(*ssa.If); !isIf2 {
+							if bo, isBin := in.(*ssa.BinOp); !isBin || (bo.Op != token.EQL && bo.Op != token.NEQ) {
+								used = true
+							}
+						}
+					}
+				}
+			}
+			work = append(work, b.Succs...)
+		}
+		if back && !used {
+			forgot = append(forgot, p.Pos(call.Pos())+" ("+shortName(name)+")")
+		}
+	}
+	if len(loops) > 0 {
+		r.Check(len(forgot) == 0, key+"/loop-continue", "inside a loop of a function that returns an error, the failure of a call does not send control back to the loop head with the error value unused (neither returned, recorded nor wrapped)", p.Pos(fn.Pos()), "", "the loop goes on after the call at "+strings.Join(forgot, ", ")+" failed and nothing keeps the error: the function can return nil for a partial result")
+	}
 }
 
 // checkErrorsNotSwallowedIn applies checkErrorsNotSwallowed to every top-level function with an error result in the
